@@ -14,7 +14,7 @@ func init() {
 	run.Register(&run.Check{
 		ID:    "C16",
 		Level: "exploration",
-		Rule: "cases: the 212 manifest directories shipped with the repository with a focus name drawn from their own peers, then generated worlds (NetworkPolicy / ANP / Ingress+Route families, some with one name shared by workloads of two namespaces) and a focus name W drawn from: a present name, its namespace/name form, a shared name, an absent name, a namespace name, a prefix of a name, a wrong-namespace form, 'ingress-controller' with and without ingress resources; " +
+		Rule: "cases: the 212 manifest directories shipped with the repository with a focus name drawn from their own peers, then generated worlds (NetworkPolicy / ANP / Ingress+Route families, some with one name shared by workloads of two namespaces) and a focus name W drawn from: a present name, its namespace/name form, a shared name, an absent name, a namespace name, a prefix of a name, a proper part / near miss of a real name or namespace/name (suffixes, prefixes, other letter case, doubled or trailing separator; a third of the worlds also hold 'twins' whose name or namespace ends with another workload's), a wrong-namespace form, 'ingress-controller' with and without ingress resources; " +
 			"the library is run with and without WithFocusWorkload(W) and the focused entries must equal exactly the unfocused entries whose source or destination is a workload whose name or namespace/name equals W (or whose source is the ingress controller when W is ingress-controller), with identical connections; when nothing matches: empty result, nil error, a non-fatal warning in Errors(); for a third of the cases the focused run is also rendered in all five formats and parsed back (the parsers of C09): each must encode exactly the filtered relation; " +
 			"non-trivial = the filter keeps some but not all entries; distinct = world hash + W",
 		Assumptions:       []string{"the filter is recomputed by the harness from the peers' Name()/Namespace() accessors of the unfocused run"},
@@ -22,7 +22,7 @@ func init() {
 		Run:               runC16,
 		MinNonTrivial:     200,
 		MinEffectiveShare: 0.3,
-		RequiredEvents: map[string]int64{"entries_compared": 5000, "focus_present": 100, "focus_nsname": 100, "focus_shared": 30, "focus_absent": 50,
+		RequiredEvents: map[string]int64{"entries_compared": 5000, "focus_present": 100, "focus_nsname": 100, "focus_shared": 30, "focus_absent": 50, "focus_nearname": 100,
 			"focus_ingress-controller": 50, "nothing_matches_cases": 100, "ingress_controller_lines_kept": 20, "focused_formats_parsed": 300},
 	})
 }
@@ -110,8 +110,28 @@ func runC16(c *run.Ctx) {
 			}
 		}
 	}
+	// twins: a workload whose name ends with (and one whose namespace ends with) the name / namespace of another workload, so that a
+	// filter comparing anything looser than the whole name or the whole namespace/name form over-matches
+	twins := g.P(0.35) && len(w.Workloads) > 0
+	if twins {
+		o := w.Workloads[0]
+		t1 := o
+		t1.Name = "x-" + o.Name
+		t2 := o
+		t2.Ns = "x" + o.Ns
+		if w.NsByName(t2.Ns) == nil {
+			w.Namespaces = append(w.Namespaces, world.Namespace{Name: t2.Ns, HasObj: g.P(0.5), Labels: map[string]string{}})
+		}
+		t3 := o
+		t3.Name = o.Name + "-x"
+		w.Workloads = append(w.Workloads, t1, t2, t3)
+		r.Feat("suffix_twins")
+	}
 	wl := rng.Pick(g, w.Workloads)
-	class := rng.Pick(g, []string{"present", "present", "nsname", "nsname", "shared", "absent", "namespace", "prefix", "wrongns", "ingress-controller", "ingress-controller", "slash", "shared", "bareslash"})
+	if twins && g.P(0.6) {
+		wl = w.Workloads[0]
+	}
+	class := rng.Pick(g, []string{"present", "present", "nsname", "nsname", "shared", "absent", "namespace", "prefix", "wrongns", "ingress-controller", "ingress-controller", "slash", "shared", "bareslash", "nearname", "nearname"})
 	focus := ""
 	switch class {
 	case "present":
@@ -139,6 +159,13 @@ func runC16(c *run.Ctx) {
 		focus = wl.Ns + "/"
 	case "bareslash":
 		focus = "/"
+	case "nearname": // a proper part or a near miss of a real name / namespace/name: must match nothing (unless it is itself a real name)
+		full := wl.Ns + "/" + wl.Name
+		focus = rng.Pick(g, []string{wl.Name[1:], full[1:], full[2:], "/" + wl.Name, wl.Name + "x", "x" + wl.Name, strings.ToUpper(wl.Name),
+			full[:len(full)-1], wl.Name[:len(wl.Name)-1], strings.ToUpper(wl.Ns) + "/" + wl.Name, wl.Ns + "/" + wl.Name + "/", wl.Ns + "//" + wl.Name})
+		if focus == "" {
+			focus = "x"
+		}
 	}
 	r.Ev("focus_"+class, 1)
 	r.Feat("focus_" + class)
